@@ -4,6 +4,7 @@ import (
 	"context"
 	"fmt"
 	lisp "github.com/jig/lisp"
+	"github.com/jig/lisp/debuggertypes"
 	"runtime"
 	"runtime/debug"
 	"strings"
@@ -29,6 +30,7 @@ var c08Wraps = []struct{ name, text string }{
 	{"and-last", "(and true @)"},
 	{"or-last", "(or false @)"},
 	{"fn-body-last", "((fn [] 1 @))"},
+	{"quasiquote-of-unquote", "(quasiquote (unquote @))"},
 }
 
 type c08shape struct {
@@ -159,14 +161,22 @@ func init() {
 		run := func(text string) ([]int, error, *lx.Panic) { return runVia(text, 0) }
 		fam := &vf.Family{
 			Name:     "loop-shapes",
-			Bounds:   "every nesting of depth 0..2 (quick) / 0..3 (thorough) of the 10 tail-position constructs (do-last, let-body-last, let with empty / list-form bindings, if-then, if-else, cond clause, and-last, or-last, fn-body-last) around the recursive call x {self, 2-way mutual, 3-way mutual recursion} x 5 routes (fn forms written in the text; functions defined through a defn-style macro; whole program as an AST without source positions; every function in a module of its own; the recursive call built by a user macro inside its expansion); iteration counts 3, 5, 50 (host stack depth at every iteration); the plain recursions and every single construct around a self call also run 150 000 iterations to completion (thorough: all shapes of nesting depth <=1, 400 000 iterations), thorough: additionally 20000 iterations under a 1 MiB stack limit",
+			Bounds:   "every nesting of depth 0..2 (quick) / 0..3 (thorough) of the 11 tail-position constructs (do-last, let-body-last, let with empty / list-form bindings, if-then, if-else, cond clause, and-last, or-last, fn-body-last, a fully unquoted quasiquote) around the recursive call x {self, 2-way mutual, 3-way mutual recursion} x 5 routes (fn forms written in the text; functions defined through a defn-style macro; whole program as an AST without source positions; every function in a module of its own; the recursive call built by a user macro inside its expansion); iteration counts 3, 5, 50 (host stack depth at every iteration); the plain recursions and every single construct around a self call also run 150 000 iterations to completion (thorough: all shapes of nesting depth <=1, 400 000 iterations), thorough: additionally 20000 iterations under a 1 MiB stack limit",
 			Setup:    setup,
-			Timeout: 1500e9,
+			Timeout:  1500e9,
 			N:        func(t string) int64 { tier = t; return int64(len(shapesOf())) },
 			Describe: func(i int64) string { s := shapesOf()[i]; return s.names() + ": " + s.program(50, false) },
 			Run: func(i int64, r *vf.Rec) {
 				s := shapesOf()[i]
 				r.NT()
+				// a stepper session that ended in the middle of a step-out, then no stepper: the loops that follow
+				// must be flat all the same (the stepping flags are process-wide)
+				if i%7 == 0 {
+					lisp.Stepper = func(a types.MalType, e types.EnvType) debuggertypes.Command { return debuggertypes.Out }
+					lx.Eval(context.Background(), lx.MustRead("(do (+ 1 2) 3)"), env.NewSubordinateEnv(base))
+					lx.Eval(context.Background(), lx.MustRead("(+ 1 2)"), env.NewSubordinateEnv(base))
+					lisp.Stepper = nil
+				}
 				for _, rn := range []struct{ route, n int }{{0, 3}, {0, 5}, {0, 50}, {1, 5}, {1, 50}, {2, 5}, {2, 50}, {3, 5}, {3, 50}, {4, 5}, {4, 50}} {
 					n := rn.n
 					d, err, p := runVia(s.programVia(n, false, rn.route), rn.route)
